@@ -16,6 +16,7 @@ import (
 
 type opRec struct {
 	Op       Op
+	CallT    time.Duration // instant the library call itself began (after harness gates)
 	StartT   time.Duration
 	EndT     time.Duration
 	Done     bool
@@ -46,6 +47,7 @@ type clusterRun struct {
 	stepCount int
 	heavyEvery int
 	customOp  func(rec *opRec) bool
+	allowAfterShutdown bool // C20: the query/send API may be called on a shut down instance
 	mu        sync.Mutex // guards the bookkeeping maps (ops run on concurrent client goroutines)
 }
 
@@ -146,7 +148,7 @@ func (cx *clusterRun) execOp(rec *opRec) {
 			rec.Err = err.Error()
 		}
 	case "join":
-		if !n.running() {
+		if n.m == nil || (!n.running() && !cx.allowAfterShutdown) {
 			rec.Err = "not running"
 			return
 		}
@@ -215,6 +217,10 @@ func (cx *clusterRun) execOp(rec *opRec) {
 		n.leaveGate <- struct{}{}
 		err := func() error {
 			defer func() { <-n.leaveGate }()
+			if n.shutCalled {
+				return fmt.Errorf("skipped: Leave after Shutdown is documented to panic")
+			}
+			rec.CallT = cx.c.Sim.Now()
 			return n.m.Leave(time.Duration(op.A) * time.Millisecond)
 		}()
 		if err != nil {
@@ -227,7 +233,12 @@ func (cx *clusterRun) execOp(rec *opRec) {
 			rec.Err = "not created"
 			return
 		}
+		// never start a Shutdown while a Leave call is in progress on the harness
+		// side of the gate but not yet inside the library (it would then run after
+		// Shutdown, which is the documented panic)
+		n.leaveGate <- struct{}{}
 		n.shutCalled = true
+		<-n.leaveGate
 		cx.setT(cx.crashT, n.idx, true)
 		n.shutGate <- struct{}{}
 		err := func() error {
@@ -237,12 +248,18 @@ func (cx *clusterRun) execOp(rec *opRec) {
 		if err != nil {
 			rec.Err = err.Error()
 		}
+		cx.mu.Lock()
+		if n.shutAt == 0 {
+			n.shutAt = cx.c.Sim.Now()
+			n.shutM = n.m
+		}
+		cx.mu.Unlock()
 		n.crashed = true
 		n.ep.mu.Lock()
 		n.ep.down = true
 		n.ep.mu.Unlock()
 	case "update":
-		if !n.running() {
+		if n.m == nil || (!n.running() && !cx.allowAfterShutdown) {
 			rec.Err = "not running"
 			return
 		}
@@ -257,7 +274,7 @@ func (cx *clusterRun) execOp(rec *opRec) {
 		n.userBcast = append(n.userBcast, op.Buf)
 		n.mu.Unlock()
 	case "send", "sendrel":
-		if !n.running() {
+		if n.m == nil || (!n.running() && !cx.allowAfterShutdown) {
 			rec.Err = "not running"
 			return
 		}
@@ -279,6 +296,44 @@ func (cx *clusterRun) execOp(rec *opRec) {
 			err = n.m.SendReliable(node, op.Buf)
 		}
 		if err != nil {
+			rec.Err = err.Error()
+		}
+	case "members":
+		if n.m == nil {
+			return
+		}
+		for _, mm := range n.m.Members() {
+			_ = mm.Name
+			_ = mm.Address()
+		}
+	case "nummembers":
+		if n.m != nil {
+			rec.Ret = n.m.NumMembers()
+		}
+	case "localnode":
+		if n.m != nil {
+			ln := n.m.LocalNode()
+			if ln == nil || ln.Name != n.name {
+				rec.Err = fmt.Sprintf("LocalNode() = %+v", ln)
+			}
+		}
+	case "health":
+		if n.m != nil {
+			rec.Ret = n.m.GetHealthScore()
+		}
+	case "protover":
+		if n.m != nil {
+			rec.Ret = int(n.m.ProtocolVersion())
+		}
+	case "ping":
+		if n.m == nil {
+			return
+		}
+		to := cx.node(int(op.B))
+		if to == nil {
+			return
+		}
+		if _, err := n.m.Ping(to.name, &net.UDPAddr{IP: to.ip, Port: to.port}); err != nil {
 			rec.Err = err.Error()
 		}
 	case "sendaddr":
